@@ -3,12 +3,13 @@ PROP = Prop(
     "C27",
     models=[("pkg/kgo/group_balancer.go", ["BalancePlan.AdjustCooperative", "stickyBalancer.Balance", "stickyBalancer.JoinGroupMetadata", "NewConsumerBalancer"])],
     group_by_reset=True,
-    rule="one case = one history of cooperative rebalance rounds through the real cooperative-sticky balancer: round1 on a generated group "
+    rule="one case = one history of cooperative rebalance rounds through the real cooperative-sticky balancer: first round (`reset M T`) on a generated group "
          "(ownership claims with stale generations, conflicting claims, unsubscribed owners, racks), then `next` rounds in which every member owns "
          "exactly its last adjusted plan and rejoins with real JoinGroupMetadata at the next generation, interleaved with membership / subscription "
          "changes (drop, join, resubscribe). Small-scope enumeration (<=3 members x <=2 topics x <=3 partitions, all claimant sets, stale-generation "
-         "patterns) plus random groups up to 200 members x 50 topics. non-trivial = a round whose plan moves an owned partition (round1/change) "
-         "or that follows a round which withheld something (next). distinct = distinct op lines.",
+         "patterns) plus random groups up to 200 members x 50 topics. non-trivial = a round with at least 2 members and at least one ownership claim "
+         "(AdjustCooperative and the safety Spec have something to decide); the distribution lists how many rounds withheld partitions "
+         "(round_k_withholds). distinct = distinct op lines.",
     trusted_base=["hand-written model of AdjustCooperative (shared with C25) and of the revoke-and-rejoin step, tied to the code by exact differential "
                   "runs (adjusted plan compared on every round; rejoin metadata produced by the real stickyBalancer.JoinGroupMetadata)",
                   "the sticky engine is NOT modelled: the safety theorem quantifies over every plan that plans each partition at most once for group members "
